@@ -49,6 +49,10 @@ def run_up(root, cfg, fmt=None, quiet=False, cwd=None):
 
 def judge(rec, rnd, tmp, k):
     b = B.gen_budget(rnd)
+    if rnd.random() < .12:
+        # any folder can be named as the config folder (tally up <dir>, TALLY_CONFIG); the settings then name their files relative to ITS parent
+        b['cfg_name'] = rnd.choice(['cfg-2025', 'my config', 'Config', 'settings.d'])
+        rec.count('budgets_with_another_config_folder_name')
     same_names = len(b['sources']) >= 2 and rnd.random() < .25
     if same_names:
         # source names are labels, not keys: two statement files of one account may carry the same name and both still count
@@ -151,6 +155,7 @@ def judge(rec, rnd, tmp, k):
     name_sets = defaultdict(set)
     for t in htx:
         name_sets[(t[0], t[4], t[5], t[6])].add(t[1])
+    groups = None
     if any(len(v) > 1 for v in name_sets.values()):
         rec.count('json_merchant_grouping_ambiguous_not_judged')
     else:
@@ -189,7 +194,9 @@ def judge(rec, rnd, tmp, k):
     if {k: round(v, 2) for k, v in bm.items()} != {k: v['total'] for k, v in js['by_month'].items()}:
         rec.violation('json-by-month-differs', f'{js["by_month"]} vs { {k: round(v, 2) for k, v in bm.items()} }', case)
     # ---- views
-    if b['views']:
+    if b['views'] and groups is None:
+        rec.count('views_not_judged_grouping_ambiguous')
+    if b['views'] and groups is not None:
         gl, views = b['views']
         secs = {s['title']: {m['displayName'] for m in s['merchants'].values()} for s in data.get('sections', {}).values()}
         mts = {}
